@@ -643,11 +643,14 @@ class Gen:
     def onebad(self, t):
         """[(object term, n, i)] : sequence of length n whose item i is in bad(child) and
         whose other items are witnesses; only for nodes that are sequences in the model
-        (list / Sequence / MutableSequence / variadic tuple / GL)."""
+        (list / Sequence / MutableSequence / variadic tuple / GL), and for quasi-iterable hints with sequence objects."""
         tag = t[0]
         if tag == 'tv':
             carriers, child = ['tuple'], t[2]
         elif tag == 'c1' and HS.C1[t[1]][2] == 'seq':
+            carriers, child = [c for c in self._c1_carriers(HS.C1[t[1]][1]) if c in ('list', 'tuple', 'USeq', 'UMSeq', 'deque')], t[2]
+        elif tag == 'c1' and HS.C1[t[1]][2] == 'quasi':
+            # Iterable / Container / Reversible hints: an object that is a sequence is sampled by random access
             carriers, child = [c for c in self._c1_carriers(HS.C1[t[1]][1]) if c in ('list', 'tuple', 'USeq', 'UMSeq', 'deque')], t[2]
         elif tag == 'g' and t[1] == 'GL':
             carriers, child = ['GL'], t[2]
